@@ -256,6 +256,7 @@ def quantity(rng, si_values, units, dtype, dim):
 
 def check_attenuation(rng, n_cases=1500):
     checked = 0
+    reused = None        # one Material object that a caller keeps and re-configures (a plain mutable dataclass)
     for _ in range(n_cases):
         wl_dtype = rng.choice(['float64', 'float64', 'float32', 'int64', 'int64', 'int32'])
         dim = rng.choice([None, None, 'wavelength'])
@@ -275,7 +276,26 @@ def check_attenuation(rng, n_cases=1500):
         cls = f'wavelength-{wl_dtype}'
         checked += 1
         try:
-            r = Material(scattering_params=p, effective_sample_number_density=n).attenuation_coefficient(wl)
+            mode = rng.random()
+            if mode < 0.3 and reused is not None:
+                # history: the same Material object, queried before, now describes another substance
+                try:
+                    reused.scattering_params = p
+                    if rng.random() < 0.5:
+                        reused.effective_sample_number_density = n
+                    else:
+                        n = reused.effective_sample_number_density
+                        desc['n'] = d(n)
+                    mat = reused
+                    cls = 'reused-material:' + cls
+                    desc['history'] = 'a Material object queried earlier, then given new scattering_params (and density)'
+                except Exception:       # immutable Material: nothing to re-use
+                    mat = Material(scattering_params=p, effective_sample_number_density=n)
+            else:
+                mat = Material(scattering_params=p, effective_sample_number_density=n)
+                if reused is None or mode > 0.9:
+                    reused = mat
+            r = mat.attenuation_coefficient(wl)
             got, dims = si(r)
             got = got.reshape(-1)
         except Exception as ex:
